@@ -11,6 +11,7 @@
 //	weights n start step      SaveStoreWeight for n stores (bit patterns 1.5+k ulp / 2.0+k ulp)
 //	corrupt id                an unreadable record under the region key of id, written below core.Storage
 //	loadonce [errpattern]     LoadRegionsOnce with CheckAndPutRegion of a fresh BasicCluster
+//	failflush | failregion r  Flush / SaveRegion of the region backend while every leveldb write fails
 //	open rsg ; race id        region storage on a leveldb whose journal writes can be parked: DeleteRegion(id) is
 //	                          parked inside its leveldb delete, Flush is started, the delete is released
 //
@@ -130,6 +131,7 @@ type world struct {
 	gated   bool // backend rsg
 	gate    *gate
 	gstor   storage.Storage // the file storage below the gated leveldb (closed by the harness)
+	dead    *leveldb.DB     // a closed leveldb: swapped in to make the region storage's writes fail
 	// the region storage flushes in the background 3 s after the last buffered save (checked once per
 	// second); the harness keeps track so that it never races with that timer
 	lastSave time.Time
@@ -145,6 +147,23 @@ func (w *world) closeCurrent() {
 		w.rs = nil
 	}
 	w.st = nil
+}
+
+// withWriteFault runs f while every leveldb write of the region storage fails ("leveldb: closed"): the embedded
+// DB is swapped for a closed one and put back (RegionStorage.LeveldbKV and LeveldbKV.DB are exported fields).
+func (w *world) withWriteFault(f func() error) error {
+	if w.dead == nil {
+		db, err := leveldb.OpenFile(w.base+"/dead", nil)
+		if err != nil {
+			panic(err)
+		}
+		db.Close()
+		w.dead = db
+	}
+	good := w.rs.LeveldbKV.DB
+	w.rs.LeveldbKV.DB = w.dead
+	defer func() { w.rs.LeveldbKV.DB = good }()
+	return f()
 }
 
 func (w *world) closeGatedFiles() {
@@ -306,7 +325,7 @@ func errName(err error) string {
 		return "ok"
 	}
 	if errors.Is(err, errInjected) || strings.Contains(err.Error(), errInjected.Error()) ||
-		strings.Contains(err.Error(), "ErrProtoUnmarshal") {
+		strings.Contains(err.Error(), "ErrProtoUnmarshal") || strings.Contains(err.Error(), "leveldb: closed") {
 		return "err"
 	}
 	return "err:" + strings.ReplaceAll(err.Error(), " ", "_")
@@ -436,6 +455,20 @@ func (w *world) exec(op string) string {
 			return bad // reserved: this is how an unreadable record is written down
 		}
 		return errName(st.SaveRegion(parseMeta(f[1])))
+	case f[0] == "failregion" && len(f) == 2:
+		// SaveRegion while the leveldb write fails (noticed only by the save that fills the batch)
+		if w.rs == nil {
+			return bad
+		}
+		if it := itemOf(parseMeta(f[1])); it.s == 0 && it.e == 0 && it.cv == 0 && it.v == 0 {
+			return bad
+		}
+		return errName(w.withWriteFault(func() error { return st.SaveRegion(parseMeta(f[1])) }))
+	case f[0] == "failflush" && len(f) == 1:
+		if w.rs == nil {
+			return bad
+		}
+		return errName(w.withWriteFault(st.Flush))
 	case f[0] == "corrupt" && len(f) == 2:
 		key := fmt.Sprintf("raft/r/%020d", u(f[1]))
 		var b kv.Base = w.raw
@@ -612,7 +645,7 @@ func (w *world) do(t *trace.W, op string) string {
 	obs := w.exec(op)
 	if w.rs != nil {
 		switch strings.Fields(op)[0] {
-		case "region", "regions":
+		case "region", "regions", "failregion":
 			w.lastSave, w.pending = time.Now(), true
 		case "flush", "close", "crash", "bgflush", "race":
 			w.pending = false
